@@ -64,8 +64,10 @@ class RQKernel(Kernel):
 
     def forward(self, x1, x2, diag=False, **params):
         def postprocess_rq(dist_mat):
-            alpha = self.alpha
-            for _ in range(1, len(dist_mat.shape) - len(self.batch_shape)):
+            alpha = self.alpha  # batch_shape x 1
+            if not diag:
+                alpha = alpha.unsqueeze(-1)
+            if params.get("last_dim_is_batch", False):
                 alpha = alpha.unsqueeze(-1)
             return (1 + dist_mat.div(2 * alpha)).pow(-alpha)
 
